@@ -467,12 +467,13 @@ func (r *Runtime) typedArrayProto_copyWithin(call FunctionCall) Value {
 			relEnd = l
 		}
 		final := toIntStrict(relToIdx(relEnd, l))
-		data := ta.viewedArrayBuf.data
-		offset := ta.offset
-		elemSize := ta.elemSize
-		if final > from {
+		count := min(final-from, ta.length-to)
+		if count > 0 {
 			ta.viewedArrayBuf.ensureNotDetached(true)
-			copy(data[(offset+to)*elemSize:], data[(offset+from)*elemSize:(offset+final)*elemSize])
+			data := ta.viewedArrayBuf.data
+			offset := ta.offset
+			elemSize := ta.elemSize
+			copy(data[(offset+to)*elemSize:(offset+to+count)*elemSize], data[(offset+from)*elemSize:(offset+from+count)*elemSize])
 		}
 		return call.This
 	}
